@@ -98,7 +98,22 @@ TrReload == /\ IsEvent("Reload")
                   /\ ReloadGhost(o, d)
             /\ hist' = hist
 
-TrNext == TrReset \/ TrAdd \/ TrGet \/ TrTtl \/ TrSet \/ TrSave \/ TrReload
+(* concurrent phase of the harness (getters racing with one modifier): no order of the individual
+   operations is recorded.  Offer = pairs that are about to be added; GetC = a result some getter
+   saw; Sync = the state after all goroutines were joined.  Only the property is judged: returned
+   values were offered and are no markers, and the accounting of the joined state is exact. *)
+TrOffer == /\ IsEvent("Offer")
+           /\ offered' = Offer(offered, Pairs(Trace[l].pairs))
+           /\ UNCHANGED <<m, lastGet, lastAdd, savedKV, savedFull, lastReload, hist>>
+TrGetC == /\ IsEvent("GetC")
+          /\ GetGhost(Trace[l].s, Trace[l].ok, Trace[l].v)
+          /\ UNCHANGED <<m, hist>>
+TrSync == /\ IsEvent("Sync")
+          /\ m' = ObsM(Trace[l].post, m.file, m.dmg)
+          /\ lastGet' = NoGet /\ lastAdd' = NoAdd
+          /\ UNCHANGED <<offered, savedKV, savedFull, lastReload, hist>>
+
+TrNext == TrReset \/ TrAdd \/ TrGet \/ TrTtl \/ TrSet \/ TrSave \/ TrReload \/ TrOffer \/ TrGetC \/ TrSync
 TraceSpec == TrInit /\ [][TrNext]_tvars
 
 HighWater == TLCSet(7, IF l > TLCGet(7) THEN l ELSE TLCGet(7))
